@@ -13,7 +13,7 @@ ID = "C20"
 N = {"quick": 300, "thorough": 10000}
 BUDGET = {"quick": 240.0, "thorough": 700.0}
 RULE = ("case = (star forest with 1-4 parents, 1-8 intervals, skewed and balanced mutation loads 0..5000, "
-        "mutation rate 1e-12..1, max_iterations 1/2/5/25, max_shape 2..1000); distinct by (topology+"
+        "mutation rate 1e-12..1, max_iterations 1/2/5/25, max_shape 2..1000; every fifth case a 45-200 child proportional star with max_shape 1.01..10 and 1..25 iterations); distinct by (topology+"
         "mutation hash, options); non-trivial = >=2 edges per parent; every parent compared")
 
 
@@ -43,6 +43,16 @@ def case(ctx, i, rec):
     mu = float(10 ** rng.uniform(-12, 0))
     ms = float(rng.choice([2.0, 5.0, 20.0, 1000.0, 1000.0]))
     iters = int(rng.choice([1, 2, 5, 25]))
+    if i % 5 == 3:
+        # wide proportional star under a tight cap: the running message scale of the parent falls
+        # below the underflow guard in the middle of a sweep (factors re-absorbed mid-iteration)
+        nch = int(rng.choice([45, 80, 120, 200]))
+        m = int(rng.choice([1, 10, 50]))
+        ts, _r = zoo.handmade_tree(rng, n_leaves=nch, shape="star", L=1.0, muts={c: m for c in range(nch)})
+        r = dict(_r, gen="wide_proportional_star", per_edge=m)
+        ms = float(rng.choice([1.01, 2.0, 10.0]))
+        iters = int(rng.choice([1, 2, 3, 5, 8, 25]))
+        rec.count("wide_star_runs")
     kw = dict(mutation_rate=mu, max_iterations=iters, max_shape=ms, regularise_roots=False,
               rescaling_intervals=0, return_fit=True)
     res, exc = common.call(tsdate.variational_gamma, ts, **kw)
@@ -101,5 +111,5 @@ def case(ctx, i, rec):
 
 
 def reach(ctx, agg):
-    need = {"uncapped_parents": 100, "capped_parents": 100, "capped_parents_proportional": 15}
+    need = {"uncapped_parents": 100, "capped_parents": 100, "capped_parents_proportional": 15, "wide_star_runs": 20}
     return [f"{k} = {agg.cnt.get(k, 0)} < {v}" for k, v in need.items() if agg.cnt.get(k, 0) < v]
